@@ -258,6 +258,43 @@ theorem beam_before_after (c : Ctl) (hwf : c.WF) (hcoh : c.Coherent)
     show c'.screen.front.getD _ d = _
     rw [hpix, if_pos (by omega)]
 
+/-- **Before / after the beam, pokes.** `execute_poke` (repaired: `ZXController::force_write`) of
+a RAM address is a `write_internal` at the current beam position — no clock passes and nothing is
+rendered on its behalf — so `beam_before_after` holds for it word for word: a poke at least 8 T
+before the fetch shows in the frame in progress, a poke at least 8 T after it leaves that frame as
+drawn (the canvas must have been rendered up to the clock *before* the poke, which is what
+`wait_internal` guarantees after every wait). -/
+theorem beam_before_after_poke (c : Ctl) (hwf : c.WF) (hcoh : c.Coherent)
+    (hbeam : c.screen.last.le (Blocks.fromClocks c.machine c.frameClocks))
+    (a : BitVec 16) (v : BitVec 8) (p : Nat) (hp : c.mem.getPage a = .ram p) (ws : List Nat) (w : Nat)
+    (hin : c.frameClocks + ws.sum < c.machine.clocksFrame)
+    (hend : c.machine.clocksFrame ≤ c.frameClocks + ws.sum + w)
+    (x y : Nat) (hx : x < 256) (hy : y < 192) (d : Px) :
+    let c1 := c.poke true a v
+    let c' := (ws.foldl Ctl.waitInternal c1).waitInternal w
+    (Spec.clearlyBefore c.machine c.frameClocks y (x / 8) = true →
+      c'.screen.front.getD (y * 256 + x) d =
+        Spec.stdPx (fun off => c1.mem.ramByte (Spec.visibleBank c.machine c.port7ffd) off) c.screen.flash x y) ∧
+    (Spec.clearlyAfter c.machine c.frameClocks y (x / 8) = true →
+      c.screen.last.idx = (Blocks.fromClocks c.machine c.frameClocks).idx →
+      c'.screen.front.getD (y * 256 + x) d = c.screen.back.getD (y * 256 + x) d) := by
+  rw [poke_fixed_ram c a v p hp]
+  exact beam_before_after c hwf hcoh hbeam a v ws w hin hend x y hx hy d
+
+/-- after every wait that stays inside the frame the render cursor is level with the clock — the
+hypothesis of the "after" halves above -/
+theorem wait_syncs (c : Ctl) (hwf : c.WF) (hbeam : c.screen.last.le (Blocks.fromClocks c.machine c.frameClocks))
+    (clk : Nat) (hin : c.frameClocks + clk < c.machine.clocksFrame) :
+    (c.waitInternal clk).screen.last.idx =
+      (Blocks.fromClocks (c.waitInternal clk).machine (c.waitInternal clk).frameClocks).idx := by
+  have hle : c.screen.last.le (Blocks.fromClocks c.screen.machine (c.frameClocks + clk)) := by
+    rw [hwf.mach]
+    exact Blocks.le_trans hbeam (fromClocks_mono _ _ _ (by omega))
+  obtain ⟨p1, _⟩ := processClocks_spec c.screen hwf.screen (c.frameClocks + clk) hle
+  rw [waitInternal_eq, if_neg (by omega)]
+  show (c.screen.processClocks (c.frameClocks + clk)).last.idx = (Blocks.fromClocks c.machine (c.frameClocks + clk)).idx
+  rw [p1, hwf.mach]
+
 /-! Non-vacuity: concrete states on which the statements say something. -/
 
 /-- a coherent, well-formed 128K state with the shadow screen displayed and visible content -/
